@@ -464,6 +464,93 @@ def mtf_case_history(cid, rng, nv=None, length=60, slots=20, cache=None, reorder
     return (header(cid, "mtbddf", cap=1 << 14, cache=cache, threads=threads, snap_each=True), ops)
 
 
+# package C10f: histories for the edge-level replay of the MTBDD<F64> model only (ocaml/c10b_main.ml; NOT for the
+# shared DD driver / the debug-profile pass): more boundary values (max subnormal, min normal, 0.1, -0.5, 2^53,
+# -max), ITE with conditions that are not 0-1-valued (release behaviour: every non-zero value selects the then-
+# operand; the debug build asserts), -x + x and 0 - x chains, and PARSEC (the constant parsed from a DDDMP terminal
+# description by ParseTagged::parse)
+MTF_EXTRA = ["000fffffffffffff", "0010000000000000", "3fb999999999999a", "bfe0000000000000", "4340000000000000",
+             "ffefffffffffffff", "8000000000000001"]
+MTF_TEXTS = ["0", "-0", "-0.0", "1", "2.5", "-7", "nan", "-nan", "NaN", "-NaN", "inf", "-inf", "+inf", "1e-320", "1e400",
+             "-1e400", "0.1", "MinusInf", "PlusInf", "4.9e-324", "1.7976931348623157e308", "-0e0", "+nan"]
+
+
+def mtf_case_history_x(cid, rng, nv=None, length=60, slots=20, cache=None, threads=1):
+    nv = nv or rng.randrange(1, 5)
+    cache = cache if cache is not None else rng.choice([1, 2, 16, 1 << 10])
+    ops = [f"VARS {nv}"]
+    live = set()
+    vals = MTF_VALUES + MTF_EXTRA
+
+    def pick():
+        return rng.choice(sorted(live))
+
+    def vt():
+        n = 1 << nv
+        style = rng.randrange(3)
+        if style == 0:
+            return [rng.choice(vals + MTF_INPUT_ONLY) for _ in range(n)]
+        if style == 1:
+            vs = rng.sample(vals, 2)
+            return [rng.choice(vs) for _ in range(n)]
+        return [rng.choice([MTF_VALUES[0], MTF_VALUES[1], MTF_VALUES[10], MTF_VALUES[8]]) for _ in range(n)]
+
+    for _ in range(length):
+        r = rng.random()
+        d = rng.randrange(slots)
+        if len(live) < 3 or r < 0.18:
+            ops.append(f"VT h{d} {nv} " + " ".join(vt()))
+            live.add(d)
+        elif r < 0.24:
+            ops.append(f"CONSTN h{d} {rng.choice(vals + MTF_INPUT_ONLY)}")
+            live.add(d)
+        elif r < 0.34:
+            ops.append(f"PARSEC h{d} {rng.choice(MTF_TEXTS)}")
+            live.add(d)
+        elif r < 0.38:
+            ops.append(f"VAR h{d} {rng.randrange(nv)}")
+            live.add(d)
+        elif r < 0.58:
+            a, b = pick(), pick()
+            for o in rng.sample(MT_OPS, rng.randrange(1, 4)):
+                dd = rng.randrange(slots)
+                ops.append(f"{o} h{dd} h{a} h{b}")
+                live.add(dd)
+                if dd in (a, b):
+                    break
+        elif r < 0.66:
+            # 0 - x, then (0 - x) + x and (-1) * x: signed-zero candidates
+            a = pick()
+            z, m, n1, n2 = slots, slots + 1, slots + 2, slots + 3
+            ops += [f"CONSTN h{z} {MTF_VALUES[0]}", f"CONSTN h{m} {MTF_VALUES[2]}", f"SUB h{n1} h{z} h{a}",
+                    f"ADD h{d} h{n1} h{a}", f"MUL h{n2} h{m} h{a}", f"DIV h{n1} h{z} h{n2}"]
+            live |= {d, z, m, n1, n2}
+        elif r < 0.78:
+            # the condition is an arbitrary function
+            ops.append(f"ITE h{d} h{pick()} h{pick()} h{pick()}")
+            live.add(d)
+        elif r < 0.84:
+            pos = rng.randrange(1 << nv)
+            neg = rng.randrange(1 << nv) & ~pos
+            ops.append(f"RESTRICT h{d} h{pick()} {pos} {neg}")
+            live.add(d)
+        elif r < 0.88:
+            ops.append(f"EVAL h{pick()}")
+        elif r < 0.91:
+            ops.append(f"EQ h{pick()} h{pick()}")
+        elif r < 0.95:
+            a = pick()
+            ops.append(f"DROP h{a}")
+            live.discard(a)
+        elif r < 0.98:
+            ops.append("GC")
+        elif nv >= 2:
+            vs = list(range(nv)); rng.shuffle(vs)
+            ops.append("ORDER " + " ".join(map(str, vs[: rng.randrange(2, nv + 1)])))
+    ops += ["DROPALL", "GC", "SNAP"]
+    return (header(cid, "mtbddf", cap=1 << 14, cache=cache, threads=threads, snap_each=True), ops)
+
+
 # ---------------------------------------------------------------------------
 # TDD (three-valued; harness kind "tdd", ops T3*) -- package TDDx
 # ---------------------------------------------------------------------------
